@@ -246,8 +246,8 @@ func (s *DiscoveryServer) initConnection(node *core.Node, con *Connection, ident
 	if alias, exists := s.ClusterAliases[proxy.Metadata.ClusterID]; exists {
 		proxy.Metadata.ClusterID = alias
 	}
-	// To ensure push context is monotonically increasing, setup LastPushContext before we addCon. This
-	// way only new push contexts will be registered for this proxy.
+	// Setup an initial LastPushContext. It is read again when the connection is registered (see addCon);
+	// a push may be committed and fanned out while we authorize the client below.
 	proxy.LastPushContext = s.globalPushContext()
 	// First request so initialize connection id and start tracking it.
 	con.SetID(connectionID(proxy.ID))
@@ -595,6 +595,14 @@ func (s *DiscoveryServer) StartPush(req *model.PushRequest) {
 func (s *DiscoveryServer) addCon(conID string, con *Connection) {
 	s.adsClientsMutex.Lock()
 	defer s.adsClientsMutex.Unlock()
+	// Read the push context the proxy is initialized from under the same lock that makes the connection
+	// visible to StartPush. Every push is then either already part of this context (it was committed
+	// before this read), or it is committed later and therefore fans out over a client list that contains
+	// this connection. Reading it any earlier loses a push that is committed and fanned out in between,
+	// leaving the proxy stale until the next push. Since StartPush can only observe the connection after
+	// we unlock, requests enqueued for it never carry an older context than this one, so the push context
+	// remains monotonically increasing.
+	con.proxy.LastPushContext = s.globalPushContext()
 	s.adsClients[conID] = con
 	recordXDSClients(con.proxy.Metadata.IstioVersion, 1)
 }
